@@ -207,6 +207,135 @@ def targeted_recipes():
     return out
 
 
+def u64b(x):
+    return u32(x & 0xffffffff) + u32(x >> 32)
+
+
+def pub_set(entries, version=2, length=None):
+    """One .debug_pubnames / .debug_pubtypes set: entries = [(die offset, name bytes incl. NUL or not)]."""
+    body = [version & 0xff, version >> 8] + u32(0) + u32(0x100)
+    for off, name in entries:
+        body += u32(off) + list(name)
+    return u32(len(body) if length is None else length) + body
+
+
+def eh_cie(aug, augdata, instrs=(), version=1):
+    body = u32(0) + [version] + list(aug) + [0, 1, 0x78, 16]
+    if aug[:1] == b"z":
+        body += [len(augdata)] + list(augdata)
+    body += list(instrs)
+    while (len(body) + 4) % 8:
+        body.append(0)
+    return u32(len(body)) + body
+
+
+def eh_fde(cie_off, at, loc=0x1000, rng=0x100, augdata=None, instrs=()):
+    """FDE placed at section offset `at` pointing back to the CIE at `cie_off`."""
+    body = u32(at + 4 - cie_off) + u64b(loc) + u64b(rng)
+    if augdata is not None:
+        body += [len(augdata)] + list(augdata)
+    body += list(instrs)
+    while (len(body) + 4) % 8:
+        body.append(0)
+    return u32(len(body)) + body
+
+
+def fused_middle_recipes(ctx):
+    """For every iterator documented as fused: an error in the middle followed by perfectly
+    valid data (the iterator is pumped after the first Err and must only return None), plain
+    and with the reader failing at each of its first operations."""
+    out = []
+    good = pub_set([(0x20, b"alpha\0"), (0x30, b"beta\0"), (0, b"")])
+    cases = {
+        # a name that runs into the end of its (non-last) set
+        "pub-truncated-name": pub_set([(0x20, b"alpha\0"), (0x30, b"unterminated")]) + good + good,
+        # a middle set with an unknown version / a bad length
+        "pub-bad-version": good + pub_set([(0x20, b"x\0"), (0, b"")], version=9) + good,
+        "pub-short-set": good + pub_set([(0x20, b"x\0")], length=11) + good,
+        "pub-first-bad": pub_set([(0x20, b"unterminated")]) + good,
+    }
+    for name, sec in cases.items():
+        out.append({"sys": "robust", "base": "raw", "seed": 40, "id": "fm:" + name, "only": ["pubnames"],
+                    "sections": {"debug_pubnames": sec, "debug_pubtypes": sec}, "mut": []})
+    # .debug_aranges: two sets, the first with an overflowing tuple in the middle (known finding) and
+    # a valid continuation; .debug_addr: one set of addresses (an error can only be injected)
+    hdr = [2, 0] + u32(0) + [4, 0] + [0, 0, 0, 0]
+    tup = u32(0x1000) + u32(0x10) + u32(0x2000) + u32(0x10) + u32(0) + u32(0)
+    aset = u32(len(hdr) + len(tup)) + hdr + tup
+    out.append({"sys": "robust", "base": "raw", "seed": 41, "id": "fm:aranges-two-sets", "only": ["aranges"],
+                "sections": {"debug_aranges": aset + aset}, "mut": []})
+    addr = u32(4 + 8 * 4) + [5, 0, 8, 0] + u64b(1) + u64b(2) + u64b(3) + u64b(4)
+    out.append({"sys": "robust", "base": "raw", "seed": 42, "id": "fm:addr-set", "only": ["strings"],
+                "sections": {"debug_addr": addr + addr}, "mut": []})
+    # line program: an extended opcode whose length runs past the end, an unknown extended opcode with a
+    # huge length, each followed by valid instructions
+    line, pl = raw_line()
+    for name, prog in (("line-ext-overrun", [1, 0, 0x7f, 1, 1, 0x21, 0, 1, 1]), ("line-bad-leb", [1, 2, 0x80, 0x80, 0x80, 0x80, 0x80, 0x80, 0x80, 0x80, 0x80, 0x80, 0x80, 1, 0x21, 0, 1, 1])):
+        l = list(line)
+        l[0:4] = u32(pl[0]["add"] + len(prog))
+        out.append({"sys": "robust", "base": "raw", "seed": 43, "id": "fm:" + name, "only": ["lines", "convert_line"],
+                    "sections": {"debug_line": l + prog}, "mut": []})
+    # CFI: valid CIE + FDE, an entry with an unknown CIE version in the middle, then valid CIE + FDE
+    for secname, grp in (("eh_frame", ["eh_frame", "convert_frames"]),):
+        c1 = eh_cie(b"zR", [0x00])
+        f1 = eh_fde(0, len(c1), augdata=[])
+        bad = eh_cie(b"zR", [0x00], version=9)
+        c2 = eh_cie(b"zR", [0x00])
+        base2 = len(c1) + len(f1) + len(bad)
+        f2 = eh_fde(base2, base2 + len(c2), loc=0x3000, augdata=[])
+        out.append({"sys": "robust", "base": "raw", "seed": 44, "id": "fm:%s-bad-version-middle" % secname, "only": grp,
+                    "sections": {secname: c1 + f1 + bad + c2 + f2 + u32(0)}, "mut": []})
+    cie, pc = raw_cie()
+    dbad = list(cie)
+    dbad[8] = 9          # version byte of the .debug_frame CIE
+    fde, pf = raw_fde()
+    out.append({"sys": "robust", "base": "raw", "seed": 45, "id": "fm:debug_frame-bad-version-middle", "only": ["debug_frame", "convert_frames"],
+                "sections": {"debug_frame": list(cie) + dbad + list(cie) + [x for x in fde[len(fde) - 24:]]}, "mut": []})
+    # the same inputs with the reader failing at each of the first operations (an error in the middle
+    # of otherwise valid data, for iterators whose data cannot be made invalid in the middle)
+    nops = 30 if ctx.quick else 120
+    for r in list(out):
+        for k in range(nops):
+            out.append(dict(r, id=r["id"] + ":f%d" % k, reader="faulty", fail_at=k))
+    return out
+
+
+def encoding_sweep_recipes():
+    """All 256 values of every pointer-encoding byte of .eh_frame / .eh_frame_hdr: the CIE's FDE
+    encoding ('zR', with an FDE and a DW_CFA_set_loc), personality encoding ('zP'), LSDA encoding
+    ('zL', with an FDE carrying an LSDA pointer) and the three encoding bytes of .eh_frame_hdr."""
+    out = []
+    allv = [[v] for v in range(256)]
+
+    def add(name, secs, sec, at, only):
+        out.append({"sys": "robust", "base": "raw", "seed": 50, "id": "enc:" + name, "only": only, "sections": secs,
+                    "mut": [], "tails": {"sec": sec, "at": at, "tails": allv}, "budget": 4000,
+                    "addrs": [0x2000, 0x4000, 0x1000]})
+    grp = ["eh_frame", "convert_frames"]
+    setloc = [0x01] + u64b(0x1010) + [0x0e, 8, 0x01] + u64b(0x1020) + [0] * 6
+    c = eh_cie(b"zR", [0x00], [0x0c, 7, 8])
+    f = eh_fde(0, len(c), augdata=[], instrs=setloc)
+    add("zR-fde", {"eh_frame": c + f + u32(0)}, "eh_frame", 4 + 4 + 1 + 3 + 3 + 1, grp)
+    c = eh_cie(b"zP", [0x00] + u64b(0x5000), [0x0c, 7, 8])
+    f = eh_fde(0, len(c), augdata=[], instrs=setloc)
+    add("zP-personality", {"eh_frame": c + f + u32(0)}, "eh_frame", 4 + 4 + 1 + 3 + 3 + 1, grp)
+    c = eh_cie(b"zL", [0x00], [0x0c, 7, 8])
+    f = eh_fde(0, len(c), augdata=u64b(0x6000), instrs=setloc)
+    add("zL-lsda", {"eh_frame": c + f + u32(0)}, "eh_frame", 4 + 4 + 1 + 3 + 3 + 1, grp)
+    c = eh_cie(b"zPLR", [0x00] + u64b(0x5000) + [0x00, 0x00], [0x0c, 7, 8])
+    f = eh_fde(0, len(c), augdata=u64b(0x6000), instrs=setloc)
+    for i, nm in ((0, "P"), (9, "L"), (10, "R")):
+        add("zPLR-" + nm, {"eh_frame": c + f + u32(0)}, "eh_frame", 4 + 4 + 1 + 5 + 3 + 1 + i, grp)
+    # .eh_frame_hdr with a two-row table, next to a plain .eh_frame
+    c = eh_cie(b"zR", [0x00], [0x0c, 7, 8])
+    f = eh_fde(0, len(c), augdata=[])
+    eh = c + f + u32(0)
+    hdr = [1, 0x04, 0x04, 0x04] + u64b(0x4000) + u64b(2) + u64b(0x1000) + u64b(0x4000 + len(c)) + u64b(0x2000) + u64b(0x4000 + len(c))
+    for i, nm in ((1, "eh_frame_ptr"), (2, "fde_count"), (3, "table")):
+        add("hdr-" + nm, {"eh_frame": eh, "eh_frame_hdr": hdr}, "eh_frame_hdr", i, ["eh_frame_hdr"])
+    return out
+
+
 def deep_recipes():
     """Shapes the mutations cannot reach by chance: long runs of one element."""
     out = []
@@ -367,6 +496,8 @@ def run(ctx):
     recipes += exhaustive_recipes(ctx)
     recipes += deep_recipes()
     recipes += targeted_recipes()
+    recipes += fused_middle_recipes(ctx)
+    recipes += encoding_sweep_recipes()
     # every small raw family also through the faulty reader at every operation
     for name, secs, sec, patch, only in raw_families():
         for tail in ([0x10, 0x80, 0x01], [0x03, 1, 2, 3, 4, 5, 6, 7, 8], [0x0f, 2, 0x91, 0x7f, 0x40], [0, 9, 2, 1, 2, 3, 4, 5, 6, 7, 8, 0x21]):
@@ -615,7 +746,7 @@ def recipe_class(r):
     b = r.get("base", "raw")
     ks = "+".join(sorted(set(m.get("k", "") for m in r.get("mut", [])))) or "none"
     ident = r.get("id", "")
-    if ident.startswith(("deep:", "x:", "tg:")):
+    if ident.startswith(("deep:", "x:", "tg:", "fm:", "enc:")):
         return ident
     return "%s:%s:%s" % (b.split(":")[0], ks, ",".join(r.get("only", ["all"]))[:40])
 
